@@ -144,3 +144,93 @@ pub fn thread_id() -> u64 {
     std::thread::current().id().hash(&mut h);
     h.finish()
 }
+
+// ---------------------------------------------------------------------------------------
+// Pause point for lock replays: the harness names one `SharedData` call site; the first
+// thread that is about to request a lock from that call site stops there until released,
+// so that a second thread can be scheduled in between two acquisitions of the first.
+
+struct LockPause {
+    /// (file suffix, line) of the call site to stop at; cleared when hit (one-shot)
+    site: Option<(String, u32)>,
+    /// how many matching requests to let through before stopping
+    skip: u32,
+    /// a thread is parked at the pause point
+    hit: bool,
+    /// the harness has released the parked thread
+    released: bool,
+}
+
+static LOCK_PAUSE: Mutex<LockPause> =
+    Mutex::new(LockPause { site: None, skip: 0, hit: false, released: false });
+static LOCK_PAUSE_CV: std::sync::Condvar = std::sync::Condvar::new();
+static LOCK_PAUSE_ARMED: AtomicBool = AtomicBool::new(false);
+static LOCK_REQUEST_NOTES: AtomicBool = AtomicBool::new(false);
+
+/// Arm (Some) or disarm (None) the pause point. `file` is matched as a suffix of the call
+/// site's file path. Arming also turns on `Ev::Note("lock-request ...")` events, recorded
+/// *before* a lock is requested (an `Ev::Lock` acquire event is recorded after the grant).
+pub fn set_lock_pause(site: Option<(&str, u32)>) {
+    set_lock_pause_nth(site, 0);
+}
+
+/// As `set_lock_pause`, but lets the first `skip` requests from that call site through.
+pub fn set_lock_pause_nth(site: Option<(&str, u32)>, skip: u32) {
+    let mut pause = LOCK_PAUSE.lock().unwrap_or_else(|e| e.into_inner());
+    pause.site = site.map(|(file, line)| (file.to_string(), line));
+    pause.skip = skip;
+    pause.hit = false;
+    pause.released = false;
+    LOCK_PAUSE_ARMED.store(pause.site.is_some(), Ordering::SeqCst);
+    LOCK_REQUEST_NOTES.store(pause.site.is_some(), Ordering::SeqCst);
+    LOCK_PAUSE_CV.notify_all();
+}
+
+/// Wait until some thread is parked at the pause point; false on timeout.
+pub fn wait_lock_pause_hit(timeout: std::time::Duration) -> bool {
+    let pause = LOCK_PAUSE.lock().unwrap_or_else(|e| e.into_inner());
+    let (pause, _) = LOCK_PAUSE_CV
+        .wait_timeout_while(pause, timeout, |p| !p.hit)
+        .unwrap_or_else(|e| e.into_inner());
+    pause.hit
+}
+
+/// Let the parked thread continue (it then requests the lock).
+pub fn release_lock_pause() {
+    let mut pause = LOCK_PAUSE.lock().unwrap_or_else(|e| e.into_inner());
+    pause.released = true;
+    LOCK_PAUSE_CV.notify_all();
+}
+
+/// Called by `SharedData` immediately before a lock is requested.
+pub fn lock_request(id: usize, ty: &'static str, write: bool, file: &'static str, line: u32) {
+    if LOCK_REQUEST_NOTES.load(Ordering::Relaxed) {
+        record_lock(Ev::Note(format!(
+            "lock-request id={} ty={} write={} at={}:{} thread={}",
+            id, ty, write, file, line, thread_id()
+        )));
+    }
+    if !LOCK_PAUSE_ARMED.load(Ordering::Relaxed) {
+        return;
+    }
+    let mut pause = LOCK_PAUSE.lock().unwrap_or_else(|e| e.into_inner());
+    let matches = match &pause.site {
+        Some((site_file, site_line)) => *site_line == line && file.ends_with(site_file.as_str()),
+        None => false,
+    };
+    if !matches {
+        return;
+    }
+    if pause.skip > 0 {
+        pause.skip -= 1;
+        return;
+    }
+    // one-shot: later requests from this call site (by any thread) pass
+    pause.site = None;
+    LOCK_PAUSE_ARMED.store(false, Ordering::SeqCst);
+    pause.hit = true;
+    LOCK_PAUSE_CV.notify_all();
+    let _pause = LOCK_PAUSE_CV
+        .wait_while(pause, |p| !p.released)
+        .unwrap_or_else(|e| e.into_inner());
+}
